@@ -87,6 +87,8 @@ func init() {
 	card.RegisterHash(fnv.New64)
 	card.RegisterHash(fnv.New32a)
 	card.RegisterHash(fnv.New32)
+	card.RegisterHash(newEdgeHash32)
+	card.RegisterHash(newEdgeHash64)
 }
 
 func runPRNG(c *Ctx) *Violation {
@@ -287,8 +289,57 @@ func setHash(bits int, s sketch, h interface{}) error {
 	return s.(*card.HyperLogLog32).SetHash(h.(hash.Hash32))
 }
 
+// edgeHash32 / edgeHash64: FNV-1a, except that for items whose first byte is
+// 'z' only the four top bits of the sum are kept. Whatever the precision, the
+// bits below the register index are then all zero and the register takes its
+// largest value, w-p+1 - a value a plain FNV hash reaches once in 2^(w-p)
+// items.
+type edgeHash32 struct {
+	hash.Hash32
+	sat *bool
+}
+
+func newEdgeHash32() hash.Hash32 { return edgeHash32{fnv.New32a(), new(bool)} }
+func (h edgeHash32) Write(p []byte) (int, error) {
+	if len(p) > 0 && p[0] == 'z' {
+		*h.sat = true
+	}
+	return h.Hash32.Write(p)
+}
+func (h edgeHash32) Reset() { *h.sat = false; h.Hash32.Reset() }
+func (h edgeHash32) Sum32() uint32 {
+	if *h.sat {
+		return h.Hash32.Sum32() & 0xF0000000
+	}
+	return h.Hash32.Sum32()
+}
+
+type edgeHash64 struct {
+	hash.Hash64
+	sat *bool
+}
+
+func newEdgeHash64() hash.Hash64 { return edgeHash64{fnv.New64a(), new(bool)} }
+func (h edgeHash64) Write(p []byte) (int, error) {
+	if len(p) > 0 && p[0] == 'z' {
+		*h.sat = true
+	}
+	return h.Hash64.Write(p)
+}
+func (h edgeHash64) Reset() { *h.sat = false; h.Hash64.Reset() }
+func (h edgeHash64) Sum64() uint64 {
+	if *h.sat {
+		return h.Hash64.Sum64() & 0xF000000000000000
+	}
+	return h.Hash64.Sum64()
+}
+
 func hashCtor(bits, which int) interface{} {
 	switch {
+	case bits == 64 && which == 2:
+		return newEdgeHash64()
+	case which == 2:
+		return newEdgeHash32()
 	case bits == 64 && which == 0:
 		return fnv.New64a()
 	case bits == 64:
@@ -299,13 +350,19 @@ func hashCtor(bits, which int) interface{} {
 	return fnv.New32()
 }
 
-func item(i int) []byte { return []byte(fmt.Sprintf("item-%d", i)) }
+// item i; every fifth one starts with 'z' (see edgeHash32)
+func item(i int) []byte {
+	if i%5 == 3 {
+		return []byte(fmt.Sprintf("zitem-%d", i))
+	}
+	return []byte(fmt.Sprintf("item-%d", i))
+}
 
 func runHLL(c *Ctx) *Violation {
 	t := c.T
 	bits := []int{64, 32}[t.Choose(simrt.KWorkload, 2)]
 	prec := 4 + t.Choose(simrt.KWorkload, 7)
-	which := t.Choose(simrt.KWorkload, 2)
+	which := t.Choose(simrt.KWorkload, 3)
 	n := 1 + t.Choose(simrt.KWorkload, 300)
 	if t.Choose(simrt.KWorkload, 8) == 7 {
 		n = 2000 + t.Choose(simrt.KWorkload, 3000) // past the small-range correction of every precision up to 10
@@ -313,7 +370,7 @@ func runHLL(c *Ctx) *Violation {
 	name := fmt.Sprintf("HyperLogLog%d", bits)
 	c.Instance["sketch"] = name
 	c.Instance["precision"] = prec
-	c.Instance["hash"] = []string{"fnv-1a", "fnv-1"}[which]
+	c.Instance["hash"] = []string{"fnv-1a", "fnv-1", "fnv-1a with saturating values"}[which]
 	c.Instance["writes"] = n
 	c.Declare("restored_into_nil_hash", "union_mismatched_precision_rejected", "union_mismatched_hash_rejected", "decode_into_other_hash_rejected", "corrupted_sketch_accepted", "rejected_input_into_used_receiver", "top_precision")
 	desc := func(s string) func() string {
@@ -414,7 +471,7 @@ func runHLL(c *Ctx) *Violation {
 					return viol("hll-state/"+name+"/restore-same-hash", "UnmarshalBinary into a sketch with the same hash type: %v", err)
 				}
 				// (c) into a sketch with a different hash type: documented to fail
-				d, _ := newSketch(bits, prec, hashCtor(bits, 1-which))
+				d, _ := newSketch(bits, prec, hashCtor(bits, (which+1)%3))
 				c.Oracle("decode-hash-compat")
 				if err := d.UnmarshalBinary(enc); err == nil {
 					return viol("hll-state/"+name+"/restore-other-hash-accepted", "UnmarshalBinary into a sketch whose hash function has a different type returned nil; documented: the receiver's hash must be the same type as the stored one")
@@ -510,10 +567,10 @@ func runHLL(c *Ctx) *Violation {
 		}
 		c.Probe("union_mismatched_precision_rejected", 1)
 		// mismatched hash function
-		h2, _ := newSketch(bits, prec, hashCtor(bits, 1-which))
+		h2, _ := newSketch(bits, prec, hashCtor(bits, (which+1)%3))
 		c.Oracle("union-hash")
 		if err := unionOf(bits, zeroSketch(bits), x, h2); err == nil {
-			return viol("hll-state/"+name+"/union-mismatched-hash-accepted", "Union of a sketch using %T with one using %T returned nil; documented: mismatched hash functions are an error", hashCtor(bits, which), hashCtor(bits, 1-which))
+			return viol("hll-state/"+name+"/union-mismatched-hash-accepted", "Union of a sketch using %T with one using %T returned nil; documented: mismatched hash functions are an error", hashCtor(bits, which), hashCtor(bits, (which+1)%3))
 		}
 		c.Probe("union_mismatched_hash_rejected", 1)
 		// a receiver whose own hash function differs from that of a and b:
@@ -521,9 +578,9 @@ func runHLL(c *Ctx) *Violation {
 		// match those of a and b"; a matching receiver is fine and receives
 		// the union over its previous content
 		c.Oracle("union-receiver-hash")
-		rcv, _ := newSketch(bits, prec, hashCtor(bits, 1-which))
+		rcv, _ := newSketch(bits, prec, hashCtor(bits, (which+1)%3))
 		if err := unionOf(bits, rcv, x, y); err == nil {
-			return viol("hll-state/"+name+"/union-receiver-hash-mismatch-accepted", "Union into a receiver using %T of two sketches using %T returned nil; documented: an error", hashCtor(bits, 1-which), hashCtor(bits, which))
+			return viol("hll-state/"+name+"/union-receiver-hash-mismatch-accepted", "Union into a receiver using %T of two sketches using %T returned nil; documented: an error", hashCtor(bits, (which+1)%3), hashCtor(bits, which))
 		}
 		rcv2, _ := newSketch(bits, 4+(prec-4+1)%7, hashCtor(bits, which))
 		rcv2.Write(item(n + 1))
